@@ -18,6 +18,7 @@ func c07(c *Ctx) {
 	r.Rule("R-C07.3", "the only non-nil connection protocol.Dial returns is tls.Client(_, cfg) with cfg an element of ClientConfigs' result, after a successful handshake; attemptFetch returns no connection")
 	r.Rule("R-C07.4", "in Dial's loop over the client configurations a failed handshake leads back to the loop header (every chain is tried), not to a return")
 	r.Rule("R-C07.5", "attemptFetch returns the ErrNotAuthorized sentinel itself on the common-name arm; Dial returns attemptFetch's error unwrapped or joined; the certificate-storing HandleFetchNodeCredentialsResponse call is reached only if attemptFetch succeeded")
+	r.Rule("R-C07.7", "whichever chain the server still recognises: the GetClientCertificate callback of every client configuration selects its certificate by ranging over all stored chains and all CAs the server lists, under byte-equality of the chain's CA subject with the listed CA (not by a single key captured from the enclosing loop)")
 	r.Rule("R-C07.6", "chain filters on both TLS sides (R-C09.4, evaluated here)")
 	r.NotDecided = append(r.NotDecided, "that a registered node always connects (liveness)", "rogue-server behaviour inside crypto/tls", "the application-controlled WithTlsVerifyOptionsFunc override")
 
@@ -147,6 +148,10 @@ func c07(c *Ctx) {
 				r.Check(core.Strip(sc.Call.Args[1]) == pool, "R-C07.2", fmt.Sprintf("%s standardTlsConfig#%d pool", name, i), p.Pos(sc.Pos()), "the fresh pool filled from the stored bundles", "the client configuration trusts a different pool (e.g. system roots)")
 			}
 		}
+	}
+
+	if CC != nil {
+		c07ClientCert(c, CC)
 	}
 
 	// R-C07.3 / R-C07.4 / R-C07.5
@@ -336,4 +341,68 @@ func c07(c *Ctx) {
 	r.Check(okRet, "R-C07.5", dname+" returns attemptFetch's error unwrapped or joined", p.Pos(afc[0].Pos()), "errors.Is(err, ErrNotAuthorized) holds for the caller", "Dial re-wraps the fetch error without %w/Join: callers cannot recognise ErrNotAuthorized")
 
 	c09Filters(c)
+}
+
+// c07ClientCert checks the certificate-selection callback installed by
+// ClientConfigs.
+func c07ClientCert(c *Ctx, CC *ssa.Function) {
+	p, r := c.P, c.R
+	var cb *ssa.Function
+	for _, st := range storesToField(CC, "tls.Config", "GetClientCertificate") {
+		cb = fnValue(st.Val)
+	}
+	if cb == nil {
+		r.Unk("R-C07.7", "tls.ClientConfigs GetClientCertificate callback", p.Pos(CC.Pos()), "no callback installed")
+		return
+	}
+	r.Fn(core.FuncName(cb))
+	name := core.FuncName(cb)
+	cri := ssa.Value(cb.Params[0])
+	// a bundle value is a range element of the captured certMap
+	isRangeElem := func(v ssa.Value) bool {
+		ex, ok := core.Strip(v).(*ssa.Extract)
+		if !ok {
+			return false
+		}
+		nx, ok := ex.Tuple.(*ssa.Next)
+		if !ok || ex.Index != 2 {
+			return false
+		}
+		rg, ok := nx.Iter.(*ssa.Range)
+		if !ok {
+			return false
+		}
+		rp := core.PathOf(rg.X)
+		fv, isFv := rp.Root.(*ssa.FreeVar)
+		return isFv && fv.Name() == "certMap" && len(rp.Fields) == 0
+	}
+	g := core.BytesEq("bundle.ca.RawSubject, acceptable CA", func(pp core.Path) bool {
+		return pp.HasFields("ca", "RawSubject") && isRangeElem(pp.Root)
+	}, func(pp core.Path) bool {
+		sp, ok := elemOf(pp.Root)
+		return ok && len(pp.Fields) == 0 && sp.Root == cri && sp.HasFields("AcceptableCAs")
+	})
+	n := 0
+	for i, ret := range core.SuccessReturns(cb) {
+		if core.IsNilConst(ret.Results[0]) {
+			continue
+		}
+		n++
+		res := core.CutReach(p, cb, g, ret.Block())
+		r.CutOb(p, "R-C07.7", fmt.Sprintf("%s certificate-return#%d", name, i), p.Pos(ret.Pos()), res, g)
+		// the returned chain is that bundle's
+		okChain := false
+		if al, ok := core.Strip(ret.Results[0]).(*ssa.Alloc); ok {
+			for _, fs := range fieldStores(al) {
+				if fs.Field == "Leaf" {
+					lp := core.PathOf(fs.Val)
+					okChain = lp.HasFields("leaf") && isRangeElem(lp.Root)
+				}
+			}
+		}
+		r.Check(okChain, "R-C07.7", fmt.Sprintf("%s certificate-return#%d chain", name, i), p.Pos(ret.Pos()), "the matching stored chain is presented", "the presented certificate is not the chain whose CA matched")
+	}
+	if n == 0 {
+		r.Unk("R-C07.7", name+" certificate returns", p.Pos(cb.Pos()), "the callback never returns a certificate")
+	}
 }
